@@ -191,12 +191,16 @@ def run_shards(module, case_terms, workdir, shard_size=300, max_bytes=250_000, t
         timeout = int(os.environ.get('VERIF_SHARD_TIMEOUT', '900'))
     short = module.split('.')[-1]
     shards, cur, cur_bytes, start = [], [], 0, 0
+    big = 40_000          # a case this large (a lattice of hundreds of concepts, a very wide table) is evaluated on its own
     for i, t in enumerate(case_terms):
-        if cur and (len(cur) >= shard_size or cur_bytes + len(t) > max_bytes):
+        if cur and (len(cur) >= shard_size or cur_bytes + len(t) > max_bytes or len(t) > big or cur_bytes > big >= len(cur[-1]) and len(t) > big):
             shards.append((start, cur))
             cur, cur_bytes, start = [], 0, i
         cur.append(t)
         cur_bytes += len(t)
+        if len(t) > big:
+            shards.append((start, cur))
+            cur, cur_bytes, start = [], 0, i + 1
     if cur:
         shards.append((start, cur))
     paths = []
@@ -206,7 +210,7 @@ def run_shards(module, case_terms, workdir, shard_size=300, max_bytes=250_000, t
             f.write(SHARD_HEAD.format(module=module, module_short=short, imports=imports, cases=';\n'.join(terms)))
         paths.append((p, start))
     procs, results = [], []
-    pending = list(paths)
+    pending = sorted(paths, key=lambda ps: -os.path.getsize(ps[0]))      # long shards first
     running = []
     t0 = time.time()
     while pending or running:
